@@ -29,7 +29,7 @@ def run(ctx, db, tier):
     state_recorded(ctx, db)
     from . import C01
     C01.has_value_agrees(ctx, db, 'C13.has-value-agrees')
-    atomic.check_roles(ctx, db, 'C13.block-flag-orders', only_functions={P + '::next_sync', P + '::unblock_sync'}, floor=3)
+    atomic.check_roles(ctx, db, 'C13.block-flag-orders', only_objects={P + '::_block'}, floor=3)
     if ctx.cfg == 'assert':
         witness.positive(ctx, 'C13.types', 'C13_pos.cpp', 'generator is move-only, starts suspended, hands out its awaiter / iterator / future types')
         witness.negative(ctx, 'C13.types-neg', 'C13_neg.cpp', 'copying a generator must not compile')
@@ -43,6 +43,19 @@ def _bodies(db, name):
     if not out:
         raise Broken('anchor vanished: ' + name)
     return out
+
+
+def _completion_style(db, g):
+    """which access style a resume function of the internal awaiter completes: 'sync' (touches the blocking flag), 'future' (touches the awaiting promise)"""
+    st = set()
+    for b in [g] + helper_bodies(db, g):
+        for e in b.events():
+            fld = norm(e.get('field') or '')
+            if fld == P + '::_block':
+                st.add('sync')
+            if fld == P + '::_awaiting':
+                st.add('future')
+    return st
 
 
 def ask_siblings(ctx, db):
@@ -83,8 +96,19 @@ def ask_siblings(ctx, db):
                         cfg = [i for i, it in enumerate(tr) if it.k == 'call' and norm(it.get('callee') or '') == 'cocls::awaiter::set_resume_fn' and (it.get('recv') or '').endswith('_internal')]
                         if not cfg or (go >= 0 and cfg[-1] > go):
                             seen_bad = seen_bad or (f, 'the internal awaiter is made the asker without being configured for this access style before the generator runs (it may still carry the other style\'s completion function)', tr)
-                        elif want and want not in ((tr[cfg[-1]].get('args') or [{}])[0].get('path') or ''):
-                            seen_bad = seen_bad or (f, 'the internal awaiter is configured with %s, not with %s' % ((tr[cfg[-1]].get('args') or [{}])[0].get('path'), want), tr)
+                        elif want:
+                            # what the installed function does decides the style (a named static member, a capture-less lambda, whatever its name):
+                            # the synchronous completion releases the blocking flag, the future completion resolves the awaiting promise
+                            inst = functions_named_by(db, f, (tr[cfg[-1]].get('args') or [{}])[0].get('path')) or resume_functions(db, [f] + helper_bodies(db, f))
+                            if not inst:
+                                raise Broken('%s: the resume function given to the internal awaiter was not resolved' % name)
+                            styles = set()
+                            for g in inst:
+                                styles |= _completion_style(db, g)
+                            wstyle = 'sync' if want == 'resume_fn_sync' else 'future'
+                            if wstyle not in styles or (styles - {wstyle}):
+                                seen_bad = seen_bad or (f, 'the internal awaiter is configured with %s, which completes the %s access style, not the %s one' % (
+                                    (tr[cfg[-1]].get('args') or [{}])[0].get('path'), '/'.join(sorted(styles)) or 'no', wstyle), tr)
             if not refused and not seen_bad:
                 seen_bad = (f, 'no path refuses a finished generator', [])
         ctx.ob(rid, f0, f0['key'], seen_bad is None, '%s refuses finished, records asker first' % name.split('::')[-1] + ('' if not seen_bad else ' -- ' + seen_bad[1]), desc=seen_bad[1] if seen_bad else None,
@@ -215,11 +239,19 @@ def sync_block(ctx, db):
                 seen_bad = seen_bad or ('the wait does not wait for the flag to leave false', tr)
     f0 = fns[0]
     ctx.ob(rid, f0, f0['key'], seen_bad is None, 'reset < resume < wait' + ('' if not seen_bad else ' -- ' + seen_bad[0]), desc=(seen_bad[0][:80] if seen_bad else None), trace=fmt_trace(seen_bad[1]) if seen_bad else None)
-    for f in db.need(P + '::unblock_sync')[:1]:
-        evl = [e for e in f.events() if e.k == 'call' and atomic.is_atomic_call(e)]
+    # the synchronous completion: whichever function releases the blocking flag (unblock_sync, or the resume function itself when it was inlined)
+    rel = []; seenk = set()
+    for g in db.all_instances():
+        if g['nname'].startswith(P + '::') and g['key'] not in seenk and any(e.k == 'call' and atomic.is_atomic_call(e) and atomic.opname(e) in ('store', 'operator=', 'exchange') and norm(e.get('field') or '') == P + '::_block'
+                                                 and (e.get('args') or [{}])[0].get('const') == 1 for e in g.events()):
+            seenk.add(g['key']); rel.append(g)
+    if not rel:
+        raise Broken('anchor vanished: no function of the generator promise sets the blocking flag')
+    for f in rel:
+        evl = [e for e in f.events() if e.k == 'call' and atomic.is_atomic_call(e) and norm(e.get('field') or '') == P + '::_block']
         names = [atomic.opname(e) for e in evl]
-        ok = names[:2] == ['store', 'notify_all'] and (evl[0].get('args') or [{}])[0].get('const') == 1
-        ctx.ob(rid, f, f['key'], ok, 'unblock_sync: store(true) then notify_all', desc='unblock_sync is not store(true) then notify_all')
+        ok = names[:2] in (['store', 'notify_all'], ['operator=', 'notify_all'], ['exchange', 'notify_all']) and (evl[0].get('args') or [{}])[0].get('const') == 1
+        ctx.ob(rid, f, f['key'], ok, '%s: store(true) then notify_all' % f['nname'].split('::')[-1], desc='unblock_sync is not store(true) then notify_all')
 
 
 # (adapter, minimum asks): adapters built on next_awt::operator bool ask zero times when the generator is known finished
@@ -283,6 +315,6 @@ def state_recorded(ctx, db):
             ws = [it for it in tr if it.k == 'write' and (it.get('path') or '').endswith('->_state')]
             if not ws:
                 bad = bad or ('a path returns the state of the generator without recording it in _state', tr)
-            elif (ret_expr(tr) or '') not in ('this->_state', ws[-1].get('rhs')):
+            elif (ret_expr(tr) or '') not in ('this->_state', ws[-1].get('rhs'), '(%s = %s)' % (ws[-1].get('path'), ws[-1].get('rhs'))):      # return _state = x;
                 bad = bad or ('the value returned (%s) is not the value recorded' % ret_expr(tr), tr)
         ctx.ob(rid, f, f['key'], bad is None and len(trs) > 0, 'the step taken is recorded' + ('' if not bad else ' -- ' + bad[0]), desc=bad[0] if bad else None, trace=fmt_trace(bad[1]) if bad else None)
